@@ -236,6 +236,7 @@ pub fn seed_bytes(seed: u64, property: &str, campaign: &str, shard: u64) -> [u8;
 
 thread_local! {
     static LAST_PANIC: RefCell<Option<String>> = const { RefCell::new(None) };
+    static IN_GUARD: Cell<u32> = const { Cell::new(0) };
 }
 
 /// Install a panic hook that records the message and location per thread
@@ -254,13 +255,20 @@ pub fn install_quiet_panic_hook() {
             .location()
             .map(|l| format!("{}:{}", l.file(), l.line()))
             .unwrap_or_default();
+        if IN_GUARD.with(|g| g.get()) == 0 {
+            // a panic of the harness itself: make it visible
+            eprintln!("harness panic: {msg} at {loc}");
+        }
         LAST_PANIC.with(|p| *p.borrow_mut() = Some(format!("{msg} at {loc}")));
     }));
 }
 
 /// Run `f`, turning a panic into `Err(description)`.
 pub fn no_panic<T>(f: impl FnOnce() -> T) -> Result<T, String> {
-    match catch_unwind(AssertUnwindSafe(f)) {
+    IN_GUARD.with(|g| g.set(g.get() + 1));
+    let r = catch_unwind(AssertUnwindSafe(f));
+    IN_GUARD.with(|g| g.set(g.get() - 1));
+    match r {
         Ok(v) => Ok(v),
         Err(_) => Err(LAST_PANIC
             .with(|p| p.borrow_mut().take())
